@@ -1265,6 +1265,657 @@ theorem gstepnn_fixed_point_kkt (N M Kc : ℕ) (s w a g : ℕ → ℕ → K) (ep
 
 end Ext
 
+/-! ### extension 2: the non-negative multiplicative updates do not increase badness (Lee-Seung majorisation) -/
+section
+variable {K : Type} [Field K] [LinearOrder K] [IsStrictOrderedRing K] [FloorRing K]
+
+/-- Lee-Seung majorisation for weighted least squares with a non-negative design matrix, non-negative weights and a
+non-negative current point: the multiplicative update `x_k ← x_k · num_k / den_k` (`num = Bᵀ W y`, `den = Bᵀ W B x`)
+lowers the objective by at least `Σ_k x_k (num_k/den_k - 1)² den_k`.  The data `y` may have any sign. -/
+theorem mult_update_le {n m : ℕ} (B : Fin n → Fin m → K) (w y : Fin n → K) (x : Fin m → K)
+    (hB : ∀ i k, 0 ≤ B i k) (hw : ∀ i, 0 ≤ w i) (hx : ∀ k, 0 ≤ x k)
+    (num den : Fin m → K)
+    (hnum : ∀ k, num k = ∑ i, w i * B i k * y i)
+    (hden : ∀ k, den k = ∑ i, w i * B i k * ∑ l, B i l * x l)
+    (hd0 : ∀ k, den k ≠ 0) :
+    Q B w y (fun k => x k * (num k / den k)) + ∑ k, x k * (num k / den k - 1) ^ 2 * den k ≤ Q B w y x := by
+  set t : Fin m → K := fun k => num k / den k - 1 with ht
+  set P : Fin n → K := fun i => ∑ l, B i l * x l with hP
+  set D : Fin n → K := fun i => ∑ k, B i k * (x k * t k) with hD
+  have hA : ∀ i, ∑ l, B i l * (x l * (num l / den l)) = P i + D i := by
+    intro i
+    simp only [hP, hD, ← Finset.sum_add_distrib]
+    apply Finset.sum_congr rfl; intro l _
+    simp only [ht]; ring
+  have htd : ∀ k, num k - den k = t k * den k := by
+    intro k
+    simp only [ht]
+    field_simp [hd0 k]
+  -- the linear term
+  have hC : ∑ i, w i * (y i - P i) * D i = ∑ k, x k * t k ^ 2 * den k := by
+    have e1 : ∀ i, w i * (y i - P i) * D i = ∑ k, x k * t k * (w i * B i k * (y i - P i)) := by
+      intro i
+      simp only [hD, Finset.mul_sum]
+      apply Finset.sum_congr rfl; intro k _; ring
+    simp_rw [e1]
+    rw [Finset.sum_comm]
+    apply Finset.sum_congr rfl; intro k _
+    rw [← Finset.mul_sum]
+    have e2 : ∑ i, w i * B i k * (y i - P i) = num k - den k := by
+      rw [hnum k, hden k, ← Finset.sum_sub_distrib]
+      apply Finset.sum_congr rfl; intro i _; ring
+    rw [e2, htd k]; ring
+  -- the quadratic term: Cauchy-Schwarz with the non-negative weights B_ik x_k
+  have hDle : ∀ i, w i * D i ^ 2 ≤ w i * (P i * ∑ k, B i k * x k * t k ^ 2) := by
+    intro i
+    apply mul_le_mul_of_nonneg_left _ (hw i)
+    have := Finset.sum_sq_le_sum_mul_sum_of_sq_le_mul (Finset.univ : Finset (Fin m))
+      (r := fun k => B i k * (x k * t k)) (f := fun k => B i k * x k) (g := fun k => B i k * x k * t k ^ 2)
+      (fun k _ => mul_nonneg (hB i k) (hx k))
+      (fun k _ => mul_nonneg (mul_nonneg (hB i k) (hx k)) (sq_nonneg _))
+      (fun k _ => le_of_eq (by ring))
+    exact this
+  have hE : ∑ i, w i * (P i * ∑ k, B i k * x k * t k ^ 2) = ∑ k, x k * t k ^ 2 * den k := by
+    have e1 : ∀ i, w i * (P i * ∑ k, B i k * x k * t k ^ 2) = ∑ k, x k * t k ^ 2 * (w i * B i k * P i) := by
+      intro i
+      simp only [Finset.mul_sum]
+      apply Finset.sum_congr rfl; intro k _; ring
+    simp_rw [e1]
+    rw [Finset.sum_comm]
+    apply Finset.sum_congr rfl; intro k _
+    rw [← Finset.mul_sum, hden k]
+  have hQ' : Q B w y (fun k => x k * (num k / den k))
+      = Q B w y x - 2 * ∑ i, w i * (y i - P i) * D i + ∑ i, w i * D i ^ 2 := by
+    unfold Q
+    simp only [hA]
+    rw [Finset.mul_sum, ← Finset.sum_sub_distrib, ← Finset.sum_add_distrib]
+    apply Finset.sum_congr rfl; intro i _
+    simp only [hP]; ring
+  have hsum := Finset.sum_le_sum (s := Finset.univ) (fun (i : Fin n) _ => hDle i)
+  rw [hE] at hsum
+  rw [hQ', hC]
+  linarith
+/-- `mult_update_le` without the decrease term -/
+theorem mult_update_le' {n m : ℕ} (B : Fin n → Fin m → K) (w y : Fin n → K) (x : Fin m → K)
+    (hB : ∀ i k, 0 ≤ B i k) (hw : ∀ i, 0 ≤ w i) (hx : ∀ k, 0 ≤ x k)
+    (num den : Fin m → K)
+    (hnum : ∀ k, num k = ∑ i, w i * B i k * y i)
+    (hden : ∀ k, den k = ∑ i, w i * B i k * ∑ l, B i l * x l)
+    (hd0 : ∀ k, den k ≠ 0) :
+    Q B w y (fun k => x k * (num k / den k)) ≤ Q B w y x := by
+  have h := mult_update_le B w y x hB hw hx num den hnum hden hd0
+  have hS : 0 ≤ ∑ k, x k * (num k / den k - 1) ^ 2 * den k := by
+    apply Finset.sum_nonneg; intro k _
+    apply mul_nonneg (mul_nonneg (hx k) (sq_nonneg _))
+    rw [hden k]
+    apply Finset.sum_nonneg; intro i _
+    exact mul_nonneg (mul_nonneg (hw i) (hB i k)) (Finset.sum_nonneg (fun l _ => mul_nonneg (hB i l) (hx l)))
+  linarith
+end
+
+section Ext2
+variable {K : Type} [Field K] [LinearOrder K] [IsStrictOrderedRing K] [FloorRing K]
+attribute [local instance] fieldScalar
+attribute [-instance] Scalar.instOfNat Scalar.instOfScientific
+
+/-- PROPERTY. HMF non-negative mode, `astepnn` (any epsilon): for non-negative weights, a non-negative current state
+`(a, g)` and non-zero denominators (the code divides by them), ONE multiplicative a-update does not increase badness.
+This is the Lee-Seung majorisation argument, row by row; the spectra may have any sign. -/
+theorem astepnn_badness_le (sqrt : K → K) (N M Kc : ℕ) (s w a g : ℕ → ℕ → K) (eps : Option K)
+    (hw : ∀ i j, 0 ≤ w i j) (hsq : ∀ i j, sqrt (w i j) * sqrt (w i j) = w i j)
+    (ha : ∀ (i : Fin N) (k : Fin Kc), 0 ≤ a i k) (hg : ∀ (k : Fin Kc) (j : Fin M), 0 ≤ g k j)
+    (hden : ∀ (i : Fin N) (k : Fin Kc), (∑ j : Fin M, (∑ l : Fin Kc, a i l * g l j) * w i j * g k j) ≠ 0) :
+    badness sqrt N M Kc s w (mget (astepnn N M Kc s w a g)) g eps ≤ badness sqrt N M Kc s w a g eps := by
+  rw [badness_rows sqrt N M Kc s w _ g eps hsq, badness_rows sqrt N M Kc s w a g eps hsq]
+  have h := Finset.sum_le_sum (s := Finset.univ) (fun (i : Fin N) _ =>
+    mult_update_le' (fun (j : Fin M) (k : Fin Kc) => g k j) (fun j => w i j) (fun j => s i j) (fun k => a i k)
+      (fun j k => hg k j) (fun j => hw i j) (fun k => ha i k)
+      (fun k => ∑ j : Fin M, s i j * w i j * g k j)
+      (fun k => ∑ j : Fin M, (∑ l : Fin Kc, a i l * g l j) * w i j * g k j)
+      (fun k => Finset.sum_congr rfl (fun j _ => by ring))
+      (fun k => Finset.sum_congr rfl (fun j _ => by
+        have e : ∑ l : Fin Kc, g l j * a i l = ∑ l : Fin Kc, a i l * g l j :=
+          Finset.sum_congr rfl (fun _ _ => mul_comm _ _)
+        rw [e]; ring))
+      (fun k => hden i k))
+  have e : ∀ i : Fin N, (fun k : Fin Kc => mget (astepnn N M Kc s w a g) i k)
+      = fun k : Fin Kc => a i k * ((∑ j : Fin M, s i j * w i j * g k j) / (∑ j : Fin M, (∑ l : Fin Kc, a i l * g l j) * w i j * g k j)) := by
+    intro i; funext k
+    simp only [astepnn, mget_mtab_fin, sumN_fin, hmfModel]
+  simp only [e]
+  linarith
+
+/-- PROPERTY. HMF non-negative mode, `gstepnn` without smoothing (epsilon None or 0): for non-negative weights, a
+non-negative current state and non-zero denominators, ONE multiplicative g-update does not increase badness
+(Lee-Seung majorisation, pixel by pixel). -/
+theorem gstepnn_badness_le (sqrt : K → K) (N M Kc : ℕ) (s w a g : ℕ → ℕ → K) (eps : Option K)
+    (heps : eps = none ∨ eps = some 0)
+    (hw : ∀ i j, 0 ≤ w i j) (hsq : ∀ i j, sqrt (w i j) * sqrt (w i j) = w i j)
+    (ha : ∀ (i : Fin N) (k : Fin Kc), 0 ≤ a i k) (hg : ∀ (k : Fin Kc) (j : Fin M), 0 ≤ g k j)
+    (hden : ∀ (k : Fin Kc) (j : Fin M), (∑ i : Fin N, a i k * ((∑ l : Fin Kc, a i l * g l j) * w i j)) ≠ 0) :
+    badness sqrt N M Kc s w a (mget (gstepnn N M Kc s w a g eps)) eps ≤ badness sqrt N M Kc s w a g eps := by
+  have hoff := epsOn_false_of eps heps
+  rw [badness_cols sqrt N M Kc s w a _ eps hsq, badness_cols sqrt N M Kc s w a g eps hsq,
+    penalty_zero Kc M _ eps heps, penalty_zero Kc M g eps heps]
+  have h := Finset.sum_le_sum (s := Finset.univ) (fun (j : Fin M) _ =>
+    mult_update_le' (fun (i : Fin N) (k : Fin Kc) => a i k) (fun i => w i j) (fun i => s i j) (fun k => g k j)
+      (fun i k => ha i k) (fun i => hw i j) (fun k => hg k j)
+      (fun k => ∑ i : Fin N, a i k * (s i j * w i j))
+      (fun k => ∑ i : Fin N, a i k * ((∑ l : Fin Kc, a i l * g l j) * w i j))
+      (fun k => Finset.sum_congr rfl (fun i _ => by ring))
+      (fun k => Finset.sum_congr rfl (fun i _ => by ring))
+      (fun k => hden k j))
+  have e : ∀ j : Fin M, (fun k : Fin Kc => mget (gstepnn N M Kc s w a g eps) k j)
+      = fun k : Fin Kc => g k j * ((∑ i : Fin N, a i k * (s i j * w i j)) / (∑ i : Fin N, a i k * ((∑ l : Fin Kc, a i l * g l j) * w i j))) := by
+    intro j; funext k
+    simp only [gstepnn, mget_mtab_fin, sumN_fin, hmfModel, epsRhs, hoff, Bool.false_eq_true, if_false, scalar_lit,
+      Nat.cast_zero, add_zero]
+  simp only [e]
+  linarith
+/-- PROPERTY. HMF non-negative mode, epsilon None or 0: a WHOLE sweep `astepnn; gstepnn; renormalise` of `iterate` does not
+increase badness, for non-negative spectra and weights and every non-negative state `(a, g)` at which the code does not
+divide by zero (both families of denominators non-zero, no component with zero rms). -/
+theorem sweepNN_badness_le (sqrt : K → K) (N M Kc : ℕ) (s w : ℕ → ℕ → K) (eps : Option K)
+    (heps : eps = none ∨ eps = some 0)
+    (hs : ∀ i j, 0 ≤ s i j) (hw : ∀ i j, 0 ≤ w i j) (hsq : ∀ i j, sqrt (w i j) * sqrt (w i j) = w i j)
+    (ag : Mat K × Mat K) (ha : ∀ i k, 0 ≤ mget ag.1 i k) (hg : ∀ k j, 0 ≤ mget ag.2 k j)
+    (hdenA : ∀ (i : Fin N) (k : Fin Kc),
+      (∑ j : Fin M, (∑ l : Fin Kc, mget ag.1 i l * mget ag.2 l j) * w i j * mget ag.2 k j) ≠ 0)
+    (hdenG : ∀ (k : Fin Kc) (j : Fin M),
+      (∑ i : Fin N, mget (astepnn N M Kc s w (mget ag.1) (mget ag.2)) i k *
+        ((∑ l : Fin Kc, mget (astepnn N M Kc s w (mget ag.1) (mget ag.2)) i l * mget ag.2 l j) * w i j)) ≠ 0)
+    (hrms : ∀ k : Fin Kc, vget (normbase sqrt Kc M (mget (gstepnn N M Kc s w
+      (mget (astepnn N M Kc s w (mget ag.1) (mget ag.2))) (mget ag.2) eps))) k ≠ 0) :
+    badness sqrt N M Kc s w (mget (sweepNN sqrt N M Kc s w eps ag).1) (mget (sweepNN sqrt N M Kc s w eps ag).2) eps
+      ≤ badness sqrt N M Kc s w (mget ag.1) (mget ag.2) eps := by
+  have h1 := astepnn_badness_le sqrt N M Kc s w (mget ag.1) (mget ag.2) eps hw hsq (fun i k => ha i k)
+    (fun k j => hg k j) hdenA
+  have hnn := (nn_steps_nonneg N M Kc s w (mget ag.1) (mget ag.2) eps hs hw ha hg (by
+    intro e he
+    rcases heps with h | h
+    · rw [h] at he; exact absurd he (by simp)
+    · rw [h] at he; simp only [Option.some.injEq] at he; rw [← he])).1
+  have h2 := gstepnn_badness_le sqrt N M Kc s w (mget (astepnn N M Kc s w (mget ag.1) (mget ag.2))) (mget ag.2) eps heps
+    hw hsq hnn (fun k j => hg k j) hdenG
+  have h3 : badness sqrt N M Kc s w (mget (sweepNN sqrt N M Kc s w eps ag).1) (mget (sweepNN sqrt N M Kc s w eps ag).2) eps
+      = badness sqrt N M Kc s w (mget (astepnn N M Kc s w (mget ag.1) (mget ag.2)))
+          (mget (gstepnn N M Kc s w (mget (astepnn N M Kc s w (mget ag.1) (mget ag.2))) (mget ag.2) eps)) eps := by
+    apply badness_congr_model sqrt N M Kc s w _ _ _ _ eps heps
+    intro i j
+    simp only [sweepNN]
+    exact renorm_preserves_model sqrt N M Kc _ _ hrms i j
+  linarith
+end Ext2
+
+/-! ### extension 2: badness along the whole non-negative loop -/
+section Ext5
+variable {K : Type} [Field K] [LinearOrder K] [IsStrictOrderedRing K] [FloorRing K]
+attribute [local instance] fieldScalar
+attribute [-instance] Scalar.instOfNat Scalar.instOfScientific
+
+/-- what one non-negative sweep needs at the state `(a, g)`: the state is non-negative and the code does not divide by
+zero (denominators of both multiplicative updates, rms of the new components) -/
+structure SweepNNOK (sqrt : K → K) (N M Kc : ℕ) (s w : ℕ → ℕ → K) (eps : Option K) (ag : Mat K × Mat K) : Prop where
+  anonneg : ∀ i k, 0 ≤ mget ag.1 i k
+  gnonneg : ∀ k j, 0 ≤ mget ag.2 k j
+  denA : ∀ (i : Fin N) (k : Fin Kc),
+    (∑ j : Fin M, (∑ l : Fin Kc, mget ag.1 i l * mget ag.2 l j) * w i j * mget ag.2 k j) ≠ 0
+  denG : ∀ (k : Fin Kc) (j : Fin M),
+    (∑ i : Fin N, mget (astepnn N M Kc s w (mget ag.1) (mget ag.2)) i k *
+      ((∑ l : Fin Kc, mget (astepnn N M Kc s w (mget ag.1) (mget ag.2)) i l * mget ag.2 l j) * w i j)) ≠ 0
+  rms : ∀ k : Fin Kc, vget (normbase sqrt Kc M (mget (gstepnn N M Kc s w
+    (mget (astepnn N M Kc s w (mget ag.1) (mget ag.2))) (mget ag.2) eps))) k ≠ 0
+
+/-- PROPERTY. HMF non-negative mode, epsilon None/0: along the whole loop of `iterate` (`iterate_is_sweeps`: the loop is
+`iterN nIter sweepNN`) badness is non-increasing from sweep to sweep and never above its start value, as long as the
+visited states are non-negative and the code does not divide by zero. -/
+theorem iterateNN_badness_antitone (sqrt : K → K) (N M Kc : ℕ) (s w : ℕ → ℕ → K) (eps : Option K)
+    (heps : eps = none ∨ eps = some 0)
+    (hs : ∀ i j, 0 ≤ s i j) (hw : ∀ i j, 0 ≤ w i j) (hsq : ∀ i j, sqrt (w i j) * sqrt (w i j) = w i j)
+    (start : Mat K × Mat K) (nIter : ℕ)
+    (ok : ∀ t < nIter, SweepNNOK sqrt N M Kc s w eps (iterN t (sweepNN sqrt N M Kc s w eps) start)) :
+    (∀ t < nIter,
+      badness sqrt N M Kc s w (mget (iterN (t + 1) (sweepNN sqrt N M Kc s w eps) start).1)
+          (mget (iterN (t + 1) (sweepNN sqrt N M Kc s w eps) start).2) eps
+        ≤ badness sqrt N M Kc s w (mget (iterN t (sweepNN sqrt N M Kc s w eps) start).1)
+          (mget (iterN t (sweepNN sqrt N M Kc s w eps) start).2) eps) ∧
+    badness sqrt N M Kc s w (mget (iterN nIter (sweepNN sqrt N M Kc s w eps) start).1)
+        (mget (iterN nIter (sweepNN sqrt N M Kc s w eps) start).2) eps
+      ≤ badness sqrt N M Kc s w (mget start.1) (mget start.2) eps := by
+  have step : ∀ t < nIter,
+      badness sqrt N M Kc s w (mget (iterN (t + 1) (sweepNN sqrt N M Kc s w eps) start).1)
+          (mget (iterN (t + 1) (sweepNN sqrt N M Kc s w eps) start).2) eps
+        ≤ badness sqrt N M Kc s w (mget (iterN t (sweepNN sqrt N M Kc s w eps) start).1)
+          (mget (iterN t (sweepNN sqrt N M Kc s w eps) start).2) eps := by
+    intro t ht
+    rw [iterN_succ']
+    have o := ok t ht
+    exact sweepNN_badness_le sqrt N M Kc s w eps heps hs hw hsq _ o.anonneg o.gnonneg o.denA o.denG o.rms
+  refine ⟨step, ?_⟩
+  clear ok
+  induction nIter with
+  | zero => exact le_refl _
+  | succ n ih =>
+    exact le_trans (step n (Nat.lt_succ_self n)) (ih (fun t ht => step t (Nat.lt_succ_of_lt ht)))
+end Ext5
+
+/-! ### extension 2: the g-step WITH smoothing (epsilon > 0) never increases badness -/
+section Eps
+variable {K : Type} [Field K] [LinearOrder K] [IsStrictOrderedRing K] [FloorRing K]
+
+/-- nodes-to-edges identity on the path `0 - 1 - … - m` for the Jacobi-type smoothing step: with `δ = x - g`,
+`Σ_nodes 2 δ_j (d_j x_j - e_j(g)) + ε Σ_edges ((Δg)² - (Δx)²) = ε Σ_edges (δ_j + δ_{j+1})²`
+(`d` = ε·degree, `e` = ε·sum of the OLD neighbours) -/
+theorem path_edge_identity (m : ℕ) (hm : 1 ≤ m) (ε : K) (g x : ℕ → K) :
+    (∑ j ∈ range (m + 1), 2 * ((x j - g j) *
+        ((if 0 < j ∧ j + 1 < m + 1 then ε * 2 else ε) * x j
+          - (if j + 1 = m + 1 then ε * g (m + 1 - 2) else if j = 0 then ε * g 1 else ε * (g (j - 1) + g (j + 1))))))
+      + ε * ∑ j ∈ range m, ((g (j + 1) - g j) ^ 2 - (x (j + 1) - x j) ^ 2)
+    = ε * ∑ j ∈ range m, ((x j - g j) + (x (j + 1) - g (j + 1))) ^ 2 := by
+  have node : ∀ j ∈ range (m + 1), 2 * ((x j - g j) *
+        ((if 0 < j ∧ j + 1 < m + 1 then ε * 2 else ε) * x j
+          - (if j + 1 = m + 1 then ε * g (m + 1 - 2) else if j = 0 then ε * g 1 else ε * (g (j - 1) + g (j + 1))))) =
+      (if j + 1 < m + 1 then 2 * ε * (x j - g j) * (x j - g (j + 1)) else 0)
+      + (if 0 < j then 2 * ε * (x j - g j) * (x j - g (j - 1)) else 0) := by
+    intro j hj
+    rw [mem_range] at hj
+    rcases Nat.eq_zero_or_pos j with h0 | hpos
+    · have c1 : ¬ (0 < j ∧ j + 1 < m + 1) := by omega
+      have c2 : ¬ (j + 1 = m + 1) := by omega
+      have c4 : j + 1 < m + 1 := by omega
+      have c5 : ¬ (0 < j) := by omega
+      rw [if_neg c1, if_neg c2, if_pos h0, if_pos c4, if_neg c5, h0]
+      ring
+    · by_cases hlast : j + 1 = m + 1
+      · have c1 : ¬ (0 < j ∧ j + 1 < m + 1) := by omega
+        have c4 : ¬ (j + 1 < m + 1) := by omega
+        have e2 : m + 1 - 2 = j - 1 := by omega
+        rw [if_neg c1, if_pos hlast, if_neg c4, if_pos hpos, e2]
+        ring
+      · have c1 : (0 < j ∧ j + 1 < m + 1) := by omega
+        have c3 : ¬ (j = 0) := by omega
+        have c4 : j + 1 < m + 1 := by omega
+        rw [if_pos c1, if_neg hlast, if_neg c3, if_pos c4, if_pos hpos]
+        ring
+  rw [Finset.sum_congr rfl node, Finset.sum_add_distrib, Finset.sum_range_succ,
+    Finset.sum_range_succ' (fun j => if 0 < j then 2 * ε * (x j - g j) * (x j - g (j - 1)) else 0)]
+  have r1 : ∑ j ∈ range m, (if j + 1 < m + 1 then 2 * ε * (x j - g j) * (x j - g (j + 1)) else 0)
+      = ∑ j ∈ range m, 2 * ε * (x j - g j) * (x j - g (j + 1)) :=
+    Finset.sum_congr rfl (fun j hj => by rw [mem_range] at hj; rw [if_pos (by omega)])
+  have r2 : ∑ j ∈ range m, (if 0 < j + 1 then 2 * ε * (x (j + 1) - g (j + 1)) * (x (j + 1) - g (j + 1 - 1)) else 0)
+      = ∑ j ∈ range m, 2 * ε * (x (j + 1) - g (j + 1)) * (x (j + 1) - g j) :=
+    Finset.sum_congr rfl (fun j _ => by rw [if_pos (by omega), Nat.add_sub_cancel])
+  rw [r1, r2, if_neg (by omega), if_neg (by omega), Finset.mul_sum, Finset.mul_sum]
+  simp only [add_zero]
+  rw [← Finset.sum_add_distrib, ← Finset.sum_add_distrib]
+  apply Finset.sum_congr rfl; intro j _
+  ring
+end Eps
+
+section Ext3
+variable {K : Type} [Field K] [LinearOrder K] [IsStrictOrderedRing K] [FloorRing K]
+attribute [local instance] fieldScalar
+attribute [-instance] Scalar.instOfNat Scalar.instOfScientific
+
+theorem penalty_some (Kc M : ℕ) (g : ℕ → ℕ → K) (e : K) :
+    penalty Kc M g (some e) = e * ∑ k : Fin Kc, ∑ j ∈ range (M - 1), (g k (j + 1) - g k j) ^ 2 := by
+  simp only [penalty]
+  rw [sumN_fin]
+  congr 1
+  apply Finset.sum_congr rfl; intro k _
+  rw [sumN_range]
+  apply Finset.sum_congr rfl; intro j _; ring
+
+/-- PROPERTY. HMF.gstep WITH smoothing (epsilon = e > 0, at least two pixels): the simultaneous (Jacobi-type) update with
+the neighbours frozen at their old values never increases badness = chi-square + e·Σ(g_{k,j+1} - g_{k,j})², for ALL e > 0,
+all non-negative weights and all states.  Exactly: with `δ = gstep - g`,
+`badness(a, g) = badness(a, gstep) + Σ_j Σ_i w_ij (Σ_k a_ik δ_kj)² + e Σ_k Σ_j (δ_kj + δ_k,j+1)²`
+(the splitting `P = A + e·D` of the Hessian `H = A + e·(D - Adj)` has `2P - H = A + e·(D + Adj)`, the signless Laplacian,
+positive semi-definite). -/
+theorem gstep_eps_badness_le (sqrt : K → K) (solve : Mat K → Vec K → Vec K) (N M Kc : ℕ) (s w a g : ℕ → ℕ → K)
+    (e : K) (he : 0 < e) (hM : 2 ≤ M)
+    (hw : ∀ i j, 0 ≤ w i j) (hsq : ∀ i j, sqrt (w i j) * sqrt (w i j) = w i j)
+    (hsolve : ∀ j : Fin M, Solves Kc (gstepMat N M Kc w a (some e) j) (gstepRhs N M Kc s w a g (some e) j)
+      (solve (gstepMat N M Kc w a (some e) j) (gstepRhs N M Kc s w a g (some e) j))) :
+    badness sqrt N M Kc s w a g (some e)
+      = badness sqrt N M Kc s w a (mget (gstep solve N M Kc s w a g (some e))) (some e)
+        + (∑ j : Fin M, ∑ i : Fin N, w i j *
+            (∑ k : Fin Kc, a i k * (mget (gstep solve N M Kc s w a g (some e)) k j - g k j)) ^ 2)
+        + e * ∑ k : Fin Kc, ∑ j ∈ range (M - 1),
+            ((mget (gstep solve N M Kc s w a g (some e)) k j - g k j)
+              + (mget (gstep solve N M Kc s w a g (some e)) k (j + 1) - g k (j + 1))) ^ 2 ∧
+    badness sqrt N M Kc s w a (mget (gstep solve N M Kc s w a g (some e))) (some e)
+      ≤ badness sqrt N M Kc s w a g (some e) := by
+  obtain ⟨m, rfl⟩ : ∃ m, M = m + 1 := ⟨M - 1, by omega⟩
+  have hm : 1 ≤ m := by omega
+  set x : ℕ → ℕ → K := mget (gstep solve N (m + 1) Kc s w a g (some e)) with hx
+  have hon : epsOn (some e) = true := by
+    simp only [epsOn, scalar_lit, Nat.cast_zero, he, decide_true]
+  -- the column equations at the new point
+  have hN : ∀ (j : Fin (m + 1)) (k : Fin Kc),
+      ∑ i : Fin N, w i j * a i k * (s i j - ∑ l : Fin Kc, a i l * x l j)
+        = (if 0 < (j : ℕ) ∧ (j : ℕ) + 1 < m + 1 then e * 2 else e) * x k j
+          - (if (j : ℕ) + 1 = m + 1 then e * g k (m + 1 - 2) else if (j : ℕ) = 0 then e * g k 1
+              else e * (g k (j - 1) + g k (j + 1))) := by
+    intro j k
+    have h := gstep_eps_stationary_partial solve N (m + 1) Kc s w a g e he hsolve j k
+    rw [← hx] at h
+    linear_combination h
+  have hE : ∀ j : Fin (m + 1),
+      Q (fun (i : Fin N) (k : Fin Kc) => a i k) (fun i => w i j) (fun i => s i j) (fun k => g k j)
+        = Q (fun (i : Fin N) (k : Fin Kc) => a i k) (fun i => w i j) (fun i => s i j) (fun k => x k j)
+          + ∑ i : Fin N, w i j * (∑ k : Fin Kc, a i k * (x k j - g k j)) ^ 2
+          + 2 * ∑ k : Fin Kc, (x k j - g k j) *
+              ((if 0 < (j : ℕ) ∧ (j : ℕ) + 1 < m + 1 then e * 2 else e) * x k j
+                - (if (j : ℕ) + 1 = m + 1 then e * g k (m + 1 - 2) else if (j : ℕ) = 0 then e * g k 1
+                    else e * (g k (j - 1) + g k (j + 1)))) := by
+    intro j
+    rw [Q_expand _ _ _ (fun k => x k j) (fun k => g k j)]
+    simp only [hN j]
+  have hpath : ∀ k : Fin Kc,
+      (∑ j ∈ range (m + 1), 2 * ((x k j - g k j) *
+        ((if 0 < j ∧ j + 1 < m + 1 then e * 2 else e) * x k j
+          - (if j + 1 = m + 1 then e * g k (m + 1 - 2) else if j = 0 then e * g k 1 else e * (g k (j - 1) + g k (j + 1))))))
+      + e * ∑ j ∈ range m, ((g k (j + 1) - g k j) ^ 2 - (x k (j + 1) - x k j) ^ 2)
+      = e * ∑ j ∈ range m, ((x k j - g k j) + (x k (j + 1) - g k (j + 1))) ^ 2 :=
+    fun k => path_edge_identity m hm e (g k) (x k)
+  have hcross : ∑ j : Fin (m + 1), 2 * ∑ k : Fin Kc, (x k j - g k j) *
+              ((if 0 < (j : ℕ) ∧ (j : ℕ) + 1 < m + 1 then e * 2 else e) * x k j
+                - (if (j : ℕ) + 1 = m + 1 then e * g k (m + 1 - 2) else if (j : ℕ) = 0 then e * g k 1
+                    else e * (g k (j - 1) + g k (j + 1))))
+      = ∑ k : Fin Kc, ∑ j ∈ range (m + 1), 2 * ((x k j - g k j) *
+        ((if 0 < j ∧ j + 1 < m + 1 then e * 2 else e) * x k j
+          - (if j + 1 = m + 1 then e * g k (m + 1 - 2) else if j = 0 then e * g k 1 else e * (g k (j - 1) + g k (j + 1))))) := by
+    simp_rw [Finset.mul_sum]
+    rw [Finset.sum_comm]
+    apply Finset.sum_congr rfl; intro k _
+    rw [Finset.sum_range]
+  have key : badness sqrt N (m + 1) Kc s w a g (some e)
+      = badness sqrt N (m + 1) Kc s w a x (some e)
+        + (∑ j : Fin (m + 1), ∑ i : Fin N, w i j * (∑ k : Fin Kc, a i k * (x k j - g k j)) ^ 2)
+        + e * ∑ k : Fin Kc, ∑ j ∈ range (m + 1 - 1), ((x k j - g k j) + (x k (j + 1) - g k (j + 1))) ^ 2 := by
+    rw [badness_cols sqrt N (m + 1) Kc s w a g (some e) hsq, badness_cols sqrt N (m + 1) Kc s w a x (some e) hsq,
+      penalty_some, penalty_some, Finset.sum_congr rfl (fun j _ => hE j)]
+    simp only [Nat.add_sub_cancel]
+    rw [Finset.sum_add_distrib, Finset.sum_add_distrib, hcross]
+    have hsumk := Finset.sum_congr (s₁ := (Finset.univ : Finset (Fin Kc))) rfl (fun k _ => hpath k)
+    rw [Finset.sum_add_distrib] at hsumk
+    simp only [← Finset.mul_sum] at hsumk ⊢
+    simp only [Finset.sum_sub_distrib] at hsumk
+    linear_combination hsumk
+  refine ⟨key, ?_⟩
+  rw [key]
+  have h1 : 0 ≤ ∑ j : Fin (m + 1), ∑ i : Fin N, w i j * (∑ k : Fin Kc, a i k * (x k j - g k j)) ^ 2 :=
+    Finset.sum_nonneg (fun j _ => Finset.sum_nonneg (fun i _ => mul_nonneg (hw i j) (sq_nonneg _)))
+  have h2 : 0 ≤ e * ∑ k : Fin Kc, ∑ j ∈ range (m + 1 - 1), ((x k j - g k j) + (x k (j + 1) - g k (j + 1))) ^ 2 :=
+    mul_nonneg he.le (Finset.sum_nonneg (fun k _ => Finset.sum_nonneg (fun j _ => sq_nonneg _)))
+  linarith
+end Ext3
+
+/-! ### extension 2: the non-negative g-update WITH smoothing (epsilon > 0) never increases badness -/
+section NNEps
+variable {K : Type} [Field K] [LinearOrder K] [IsStrictOrderedRing K] [FloorRing K]
+
+/-- sums over the nodes of the path `0 - … - m` of "right-neighbour term + left-neighbour term" are sums over its edges -/
+theorem path_nodes_edges (m : ℕ) (R L : ℕ → K) :
+    ∑ j ∈ range (m + 1), ((if j + 1 < m + 1 then R j else 0) + (if 0 < j then L j else 0))
+      = ∑ j ∈ range m, (R j + L (j + 1)) := by
+  rw [Finset.sum_add_distrib, Finset.sum_range_succ, Finset.sum_range_succ' (fun j => if 0 < j then L j else 0)]
+  have r1 : ∑ j ∈ range m, (if j + 1 < m + 1 then R j else 0) = ∑ j ∈ range m, R j :=
+    Finset.sum_congr rfl (fun j hj => by rw [mem_range] at hj; rw [if_pos (by omega)])
+  have r2 : ∑ j ∈ range m, (if 0 < j + 1 then L (j + 1) else 0) = ∑ j ∈ range m, L (j + 1) :=
+    Finset.sum_congr rfl (fun j _ => by rw [if_pos (by omega)])
+  rw [r1, r2, if_neg (by omega), if_neg (by omega), Finset.sum_add_distrib]
+  ring
+
+/-- Cauchy-Schwarz with the non-negative weights `B_ik x_k` (the quadratic part of the Lee-Seung bound) -/
+theorem cs_quad_le {n m : ℕ} (B : Fin n → Fin m → K) (w : Fin n → K) (x t : Fin m → K)
+    (hB : ∀ i k, 0 ≤ B i k) (hw : ∀ i, 0 ≤ w i) (hx : ∀ k, 0 ≤ x k) :
+    ∑ i, w i * (∑ k, B i k * (x k * t k)) ^ 2 ≤ ∑ k, x k * t k ^ 2 * ∑ i, w i * B i k * ∑ l, B i l * x l := by
+  have hDle : ∀ i, w i * (∑ k, B i k * (x k * t k)) ^ 2 ≤ w i * ((∑ l, B i l * x l) * ∑ k, B i k * x k * t k ^ 2) := by
+    intro i
+    apply mul_le_mul_of_nonneg_left _ (hw i)
+    exact Finset.sum_sq_le_sum_mul_sum_of_sq_le_mul (Finset.univ : Finset (Fin m))
+      (r := fun k => B i k * (x k * t k)) (f := fun k => B i k * x k) (g := fun k => B i k * x k * t k ^ 2)
+      (fun k _ => mul_nonneg (hB i k) (hx k))
+      (fun k _ => mul_nonneg (mul_nonneg (hB i k) (hx k)) (sq_nonneg _))
+      (fun k _ => le_of_eq (by ring))
+  have hE : ∑ i, w i * ((∑ l, B i l * x l) * ∑ k, B i k * x k * t k ^ 2)
+      = ∑ k, x k * t k ^ 2 * ∑ i, w i * B i k * ∑ l, B i l * x l := by
+    have e1 : ∀ i, w i * ((∑ l, B i l * x l) * ∑ k, B i k * x k * t k ^ 2)
+        = ∑ k, x k * t k ^ 2 * (w i * B i k * ∑ l, B i l * x l) := by
+      intro i
+      generalize (∑ l, B i l * x l) = P
+      rw [Finset.mul_sum, Finset.mul_sum]
+      apply Finset.sum_congr rfl; intro k _; ring
+    simp_rw [e1]
+    rw [Finset.sum_comm]
+    apply Finset.sum_congr rfl; intro k _
+    rw [← Finset.mul_sum]
+  exact le_trans (Finset.sum_le_sum (fun i _ => hDle i)) (le_of_eq hE)
+
+/-- the multiplicative g-update WITH smoothing, as pure algebra: for non-negative `a, w, g`, `e ≥ 0`, non-zero
+denominators and at least two pixels, chi-square + e·Σ(Δg)² does not increase.  With `P = diag(den/g)` the step is
+`δ = -P⁻¹·(half gradient)` and `2P - H = [diag(Qg/g) - Q] + diag(Qg/g) + e·(D + Adj)` is positive semi-definite. -/
+theorem nn_smooth_step_le (N m Kc : ℕ) (hm : 1 ≤ m) (s w a g : ℕ → ℕ → K) (e : K) (he : 0 ≤ e)
+    (ha : ∀ (i : Fin N) (k : Fin Kc), 0 ≤ a i k) (hw : ∀ i j, 0 ≤ w i j) (hg : ∀ (k : Fin Kc) j, 0 ≤ g k j)
+    (x : ℕ → ℕ → K)
+    (hx : ∀ (k : Fin Kc) j, j < m + 1 → x k j = g k j *
+      (((∑ i : Fin N, a i k * (s i j * w i j))
+          + (if j + 1 = m + 1 then e * g k (m + 1 - 2) else if j = 0 then e * g k 1 else e * (g k (j - 1) + g k (j + 1))))
+        / ((∑ i : Fin N, a i k * ((∑ l : Fin Kc, a i l * g l j) * w i j))
+          + (if 0 < j ∧ j + 1 < m + 1 then e * g k j * 2 else e * g k j))))
+    (hden : ∀ (k : Fin Kc) j, j < m + 1 → (∑ i : Fin N, a i k * ((∑ l : Fin Kc, a i l * g l j) * w i j))
+          + (if 0 < j ∧ j + 1 < m + 1 then e * g k j * 2 else e * g k j) ≠ 0) :
+    (∑ j : Fin (m + 1), Q (fun (i : Fin N) (k : Fin Kc) => a i k) (fun i => w i j) (fun i => s i j) (fun k => x k j))
+        + e * ∑ k : Fin Kc, ∑ j ∈ range m, (x k (j + 1) - x k j) ^ 2
+      ≤ (∑ j : Fin (m + 1), Q (fun (i : Fin N) (k : Fin Kc) => a i k) (fun i => w i j) (fun i => s i j) (fun k => g k j))
+        + e * ∑ k : Fin Kc, ∑ j ∈ range m, (g k (j + 1) - g k j) ^ 2 := by
+  -- abbreviations
+  set num0 : ℕ → ℕ → K := fun k j => ∑ i : Fin N, a i k * (s i j * w i j) with hnum0
+  set den0 : ℕ → ℕ → K := fun k j => ∑ i : Fin N, a i k * ((∑ l : Fin Kc, a i l * g l j) * w i j) with hden0
+  set E : ℕ → ℕ → K := fun k j =>
+    if j + 1 = m + 1 then e * g k (m + 1 - 2) else if j = 0 then e * g k 1 else e * (g k (j - 1) + g k (j + 1)) with hE
+  set D : ℕ → K := fun j => if 0 < j ∧ j + 1 < m + 1 then e * 2 else e with hD
+  have hDg : ∀ k j, (if 0 < j ∧ j + 1 < m + 1 then e * g k j * 2 else e * g k j) = D j * g k j := by
+    intro k j; simp only [hD]; split_ifs <;> ring
+  set t : ℕ → ℕ → K := fun k j => (num0 k j + E k j) / (den0 k j + D j * g k j) - 1 with ht
+  set δ : ℕ → ℕ → K := fun k j => g k j * t k j with hδ
+  have hx' : ∀ (k : Fin Kc) j, j < m + 1 → x k j = g k j + δ k j := by
+    intro k j hj
+    rw [hx k j hj, hDg]
+    simp only [hδ, ht, hnum0, hden0, hE]; ring
+  have hden' : ∀ (k : Fin Kc) j, j < m + 1 → den0 k j + D j * g k j ≠ 0 := by
+    intro k j hj; have := hden k j hj; rw [hDg] at this; exact this
+  have htd : ∀ (k : Fin Kc) j, j < m + 1 →
+      (num0 k j + E k j) - (den0 k j + D j * g k j) = t k j * (den0 k j + D j * g k j) := by
+    intro k j hj
+    have := hden' k j hj
+    simp only [ht]
+    field_simp
+  have hden0_nonneg : ∀ (k : Fin Kc) (j : Fin (m + 1)), 0 ≤ den0 k j := by
+    intro k j
+    exact Finset.sum_nonneg (fun i _ => mul_nonneg (ha i k)
+      (mul_nonneg (Finset.sum_nonneg (fun l _ => mul_nonneg (ha i l) (hg l j))) (hw i j)))
+  -- per column: expansion of chi-square around g
+  have hcol : ∀ j : Fin (m + 1),
+      Q (fun (i : Fin N) (k : Fin Kc) => a i k) (fun i => w i j) (fun i => s i j) (fun k => x k j)
+        ≤ Q (fun (i : Fin N) (k : Fin Kc) => a i k) (fun i => w i j) (fun i => s i j) (fun k => g k j)
+          - ∑ k : Fin Kc, g k j * t k j ^ 2 * den0 k j
+          - 2 * ∑ k : Fin Kc, D j * δ k j ^ 2
+          + 2 * ∑ k : Fin Kc, δ k j * (E k j - D j * g k j) := by
+    intro j
+    have hxj : (fun k : Fin Kc => x k j) = fun k : Fin Kc => g k j + δ k j := by
+      funext k; exact hx' k j j.isLt
+    rw [hxj, Q_expand _ _ _ (fun k : Fin Kc => g k j) (fun k : Fin Kc => g k j + δ k j)]
+    have hquad : ∑ i : Fin N, w i j * (∑ k : Fin Kc, a i k * (g k j - (g k j + δ k j))) ^ 2
+        ≤ ∑ k : Fin Kc, g k j * t k j ^ 2 * den0 k j := by
+      have h := cs_quad_le (fun (i : Fin N) (k : Fin Kc) => a i k) (fun i => w i j) (fun k => g k j) (fun k => t k j)
+        ha (fun i => hw i j) (fun k => hg k j)
+      have e1 : ∀ i : Fin N, (∑ k : Fin Kc, a i k * (g k j - (g k j + δ k j))) ^ 2
+          = (∑ k : Fin Kc, a i k * (g k j * t k j)) ^ 2 := by
+        intro i
+        have : ∑ k : Fin Kc, a i k * (g k j - (g k j + δ k j)) = -∑ k : Fin Kc, a i k * (g k j * t k j) := by
+          rw [← Finset.sum_neg_distrib]; apply Finset.sum_congr rfl; intro k _; simp only [hδ]; ring
+        rw [this]; ring
+      simp_rw [e1]
+      refine le_trans h (le_of_eq ?_)
+      apply Finset.sum_congr rfl; intro k _
+      congr 1
+      simp only [hden0]
+      apply Finset.sum_congr rfl; intro i _; ring
+    have hN : ∀ k : Fin Kc, ∑ i : Fin N, w i j * a i k * (s i j - ∑ l : Fin Kc, a i l * g l j)
+        = t k j * (den0 k j + D j * g k j) - E k j + D j * g k j := by
+      intro k
+      have : ∑ i : Fin N, w i j * a i k * (s i j - ∑ l : Fin Kc, a i l * g l j) = num0 k j - den0 k j := by
+        simp only [hnum0, hden0]
+        rw [← Finset.sum_sub_distrib]
+        apply Finset.sum_congr rfl; intro i _; ring
+      rw [this]
+      linear_combination htd k j j.isLt
+    have hlin : 2 * ∑ k : Fin Kc, (g k j - (g k j + δ k j)) * ∑ i : Fin N, w i j * a i k * (s i j - ∑ l : Fin Kc, a i l * g l j)
+        = - 2 * (∑ k : Fin Kc, g k j * t k j ^ 2 * den0 k j) - 2 * (∑ k : Fin Kc, D j * δ k j ^ 2)
+          + 2 * ∑ k : Fin Kc, δ k j * (E k j - D j * g k j) := by
+      simp_rw [hN]
+      rw [Finset.mul_sum, Finset.mul_sum, Finset.mul_sum, Finset.mul_sum, ← Finset.sum_sub_distrib, ← Finset.sum_add_distrib]
+      apply Finset.sum_congr rfl; intro k _
+      simp only [hδ]; ring
+    rw [hlin]
+    linarith
+  -- the penalty: nodes to edges
+  have hnodeE : ∀ k : Fin Kc, ∑ j ∈ range (m + 1), δ k j * (E k j - D j * g k j)
+      = -(e * ∑ j ∈ range m, (g k (j + 1) - g k j) * (δ k (j + 1) - δ k j)) := by
+    intro k
+    have hp := path_nodes_edges m (fun j => e * δ k j * (g k (j + 1) - g k j)) (fun j => e * δ k j * (g k (j - 1) - g k j))
+    simp only [Nat.add_sub_cancel] at hp
+    have hr : ∑ j ∈ range m, (e * δ k j * (g k (j + 1) - g k j) + e * δ k (j + 1) * (g k j - g k (j + 1)))
+        = -(e * ∑ j ∈ range m, (g k (j + 1) - g k j) * (δ k (j + 1) - δ k j)) := by
+      rw [Finset.mul_sum, ← Finset.sum_neg_distrib]
+      apply Finset.sum_congr rfl; intro j _; ring
+    rw [← hr, ← hp]
+    apply Finset.sum_congr rfl; intro j hj
+    rw [mem_range] at hj
+    simp only [hE, hD]
+    rcases Nat.eq_zero_or_pos j with h0 | hpos
+    · have c1 : ¬ (0 < j ∧ j + 1 < m + 1) := by omega
+      have c2 : ¬ (j + 1 = m + 1) := by omega
+      have c4 : j + 1 < m + 1 := by omega
+      have c5 : ¬ (0 < j) := by omega
+      rw [if_neg c1, if_neg c2, if_pos h0, if_pos c4, if_neg c5, h0]
+      ring
+    · by_cases hlast : j + 1 = m + 1
+      · have c1 : ¬ (0 < j ∧ j + 1 < m + 1) := by omega
+        have c4 : ¬ (j + 1 < m + 1) := by omega
+        have e2 : m + 1 - 2 = j - 1 := by omega
+        rw [if_neg c1, if_pos hlast, if_neg c4, if_pos hpos, e2]
+        ring
+      · have c1 : (0 < j ∧ j + 1 < m + 1) := by omega
+        have c3 : ¬ (j = 0) := by omega
+        have c4 : j + 1 < m + 1 := by omega
+        rw [if_pos c1, if_neg hlast, if_neg c3, if_pos c4, if_pos hpos]
+        ring
+  have hnodeD : ∀ k : Fin Kc, ∑ j ∈ range (m + 1), D j * δ k j ^ 2
+      = e * ∑ j ∈ range m, (δ k j ^ 2 + δ k (j + 1) ^ 2) := by
+    intro k
+    have hp := path_nodes_edges m (fun j => e * δ k j ^ 2) (fun j => e * δ k j ^ 2)
+    have hr : ∑ j ∈ range m, (e * δ k j ^ 2 + e * δ k (j + 1) ^ 2) = e * ∑ j ∈ range m, (δ k j ^ 2 + δ k (j + 1) ^ 2) := by
+      rw [Finset.mul_sum]; apply Finset.sum_congr rfl; intro j _; ring
+    rw [← hr, ← hp]
+    apply Finset.sum_congr rfl; intro j hj
+    rw [mem_range] at hj
+    simp only [hD]
+    rcases Nat.eq_zero_or_pos j with h0 | hpos
+    · have c1 : ¬ (0 < j ∧ j + 1 < m + 1) := by omega
+      have c4 : j + 1 < m + 1 := by omega
+      have c5 : ¬ (0 < j) := by omega
+      rw [if_neg c1, if_pos c4, if_neg c5]; ring
+    · by_cases hlast : j + 1 = m + 1
+      · have c1 : ¬ (0 < j ∧ j + 1 < m + 1) := by omega
+        have c4 : ¬ (j + 1 < m + 1) := by omega
+        rw [if_neg c1, if_neg c4, if_pos hpos]; ring
+      · have c1 : (0 < j ∧ j + 1 < m + 1) := by omega
+        have c4 : j + 1 < m + 1 := by omega
+        rw [if_pos c1, if_pos c4, if_pos hpos]; ring
+  have hpen : ∀ k : Fin Kc, ∑ j ∈ range m, (x k (j + 1) - x k j) ^ 2
+      = ∑ j ∈ range m, (g k (j + 1) - g k j) ^ 2 + 2 * ∑ j ∈ range m, (g k (j + 1) - g k j) * (δ k (j + 1) - δ k j)
+          + ∑ j ∈ range m, (δ k (j + 1) - δ k j) ^ 2 := by
+    intro k
+    rw [Finset.mul_sum, ← Finset.sum_add_distrib, ← Finset.sum_add_distrib]
+    apply Finset.sum_congr rfl; intro j hj
+    rw [mem_range] at hj
+    rw [hx' k (j + 1) (by omega), hx' k j (by omega)]; ring
+  have hedge : ∀ k : Fin Kc, ∑ j ∈ range m, (δ k (j + 1) - δ k j) ^ 2
+      ≤ 2 * ∑ j ∈ range m, (δ k j ^ 2 + δ k (j + 1) ^ 2) := by
+    intro k
+    rw [Finset.mul_sum]
+    apply Finset.sum_le_sum; intro j _
+    nlinarith [sq_nonneg (δ k (j + 1) + δ k j)]
+  -- totals
+  set QX := ∑ j : Fin (m + 1), Q (fun (i : Fin N) (k : Fin Kc) => a i k) (fun i => w i j) (fun i => s i j) (fun k => x k j)
+  set QG := ∑ j : Fin (m + 1), Q (fun (i : Fin N) (k : Fin Kc) => a i k) (fun i => w i j) (fun i => s i j) (fun k => g k j)
+  set A := ∑ j : Fin (m + 1), ∑ k : Fin Kc, g k j * t k j ^ 2 * den0 k j with hA
+  set G := ∑ k : Fin Kc, ∑ j ∈ range m, (g k (j + 1) - g k j) ^ 2 with hG
+  set C := ∑ k : Fin Kc, ∑ j ∈ range m, (g k (j + 1) - g k j) * (δ k (j + 1) - δ k j) with hC
+  set DD := ∑ k : Fin Kc, ∑ j ∈ range m, (δ k (j + 1) - δ k j) ^ 2 with hDD
+  set S := ∑ k : Fin Kc, ∑ j ∈ range m, (δ k j ^ 2 + δ k (j + 1) ^ 2) with hS
+  have hA0 : 0 ≤ A :=
+    Finset.sum_nonneg (fun j _ => Finset.sum_nonneg (fun k _ =>
+      mul_nonneg (mul_nonneg (hg k j) (sq_nonneg _)) (hden0_nonneg k j)))
+  have hX : ∑ k : Fin Kc, ∑ j ∈ range m, (x k (j + 1) - x k j) ^ 2 = G + 2 * C + DD := by
+    rw [Finset.sum_congr rfl (fun k _ => hpen k), Finset.sum_add_distrib, Finset.sum_add_distrib, ← Finset.mul_sum]
+  have hDS : DD ≤ 2 * S := by
+    rw [hDD, hS, Finset.mul_sum]
+    exact Finset.sum_le_sum (fun k _ => hedge k)
+  have hB : ∑ j : Fin (m + 1), ∑ k : Fin Kc, D j * δ k j ^ 2 = e * S := by
+    rw [Finset.sum_comm, hS, Finset.mul_sum]
+    apply Finset.sum_congr rfl; intro k _
+    rw [← hnodeD k, Finset.sum_range]
+  have hCe : ∑ j : Fin (m + 1), ∑ k : Fin Kc, δ k j * (E k j - D j * g k j) = -(e * C) := by
+    rw [Finset.sum_comm, hC, Finset.mul_sum, ← Finset.sum_neg_distrib]
+    apply Finset.sum_congr rfl; intro k _
+    rw [← hnodeE k, Finset.sum_range]
+  have hsum : QX ≤ QG - A - 2 * (e * S) + 2 * (-(e * C)) := by
+    have h := Finset.sum_le_sum (s := Finset.univ) (fun (j : Fin (m + 1)) _ => hcol j)
+    rw [Finset.sum_add_distrib, Finset.sum_sub_distrib, Finset.sum_sub_distrib,
+      ← Finset.mul_sum _ _ (2 : K), ← Finset.mul_sum _ _ (2 : K), hB, hCe] at h
+    exact h
+  have heDD : e * DD ≤ e * (2 * S) := mul_le_mul_of_nonneg_left hDS he
+  rw [hX]
+  nlinarith [hsum, heDD, hA0]
+end NNEps
+section Ext4
+variable {K : Type} [Field K] [LinearOrder K] [IsStrictOrderedRing K] [FloorRing K]
+attribute [local instance] fieldScalar
+attribute [-instance] Scalar.instOfNat Scalar.instOfScientific
+
+/-- PROPERTY. HMF non-negative mode, `gstepnn` WITH smoothing (epsilon = e > 0, at least two pixels): for non-negative
+weights, a non-negative state `(a, g)` and non-zero denominators, ONE multiplicative g-update does not increase
+badness = chi-square + e·Σ(g_{k,j+1} - g_{k,j})² (all pixels updated simultaneously from the old neighbours). -/
+theorem gstepnn_eps_badness_le (sqrt : K → K) (N M Kc : ℕ) (s w a g : ℕ → ℕ → K) (e : K) (he : 0 < e) (hM : 2 ≤ M)
+    (hw : ∀ i j, 0 ≤ w i j) (hsq : ∀ i j, sqrt (w i j) * sqrt (w i j) = w i j)
+    (ha : ∀ (i : Fin N) (k : Fin Kc), 0 ≤ a i k) (hg : ∀ (k : Fin Kc) j, 0 ≤ g k j)
+    (hden : ∀ (k : Fin Kc) (j : Fin M), (∑ i : Fin N, a i k * ((∑ l : Fin Kc, a i l * g l j) * w i j))
+        + (if 0 < (j : ℕ) ∧ (j : ℕ) + 1 < M then e * g k j * 2 else e * g k j) ≠ 0) :
+    badness sqrt N M Kc s w a (mget (gstepnn N M Kc s w a g (some e))) (some e)
+      ≤ badness sqrt N M Kc s w a g (some e) := by
+  have hon : epsOn (some e) = true := by
+    simp only [epsOn, scalar_lit, Nat.cast_zero, he, decide_true]
+  have hxF : ∀ (k : Fin Kc) (j : Fin M), mget (gstepnn N M Kc s w a g (some e)) k j = g k j *
+      (((∑ i : Fin N, a i k * (s i j * w i j))
+          + (if (j : ℕ) + 1 = M then e * g k (M - 2) else if (j : ℕ) = 0 then e * g k 1
+              else e * (g k (j - 1) + g k (j + 1))))
+        / ((∑ i : Fin N, a i k * ((∑ l : Fin Kc, a i l * g l j) * w i j))
+          + (if 0 < (j : ℕ) ∧ (j : ℕ) + 1 < M then e * g k j * 2 else e * g k j))) := by
+    intro k j
+    simp only [gstepnn, mget_mtab_fin, sumN_fin, hmfModel, epsRhs, hon, epsVal, if_true, scalar_lit]
+  obtain ⟨m, rfl⟩ : ∃ m, M = m + 1 := ⟨M - 1, by omega⟩
+  rw [badness_cols sqrt N (m + 1) Kc s w a _ (some e) hsq, badness_cols sqrt N (m + 1) Kc s w a g (some e) hsq,
+    penalty_some, penalty_some]
+  simp only [Nat.add_sub_cancel]
+  exact nn_smooth_step_le N m Kc (by omega) s w a g e he.le ha hw hg _
+    (fun k j hj => hxF k ⟨j, hj⟩) (fun k j hj => hden k ⟨j, hj⟩)
+end Ext4
+
 /-! ### HMF.iterate: the block of columns that is kept (`find_contiguous`) -/
 
 def RunOK (M : ℕ) (good : ℕ → Bool) (r : ℕ × ℕ) : Prop :=
@@ -1378,6 +2029,195 @@ theorem findContiguous_block (M : ℕ) (good : ℕ → Bool) (c0 len : ℕ) (h :
     have := runsOf_ok M good _ hmem
     exact ⟨this.1, this.2.1, this.2.2, fun y hy => hmax y hy⟩
 
+/-! #### extension 2: the scan finds ALL maximal runs - the block is the first longest one -/
+
+/-- two recorded runs are separated by at least one column -/
+def Sep (a b : ℕ × ℕ) : Prop := a.1 + a.2 < b.1
+
+theorem runsOf_sep (M : ℕ) (good : ℕ → Bool) : (runsOf M good).Pairwise Sep := by
+  induction M with
+  | zero => simp [runsOf]
+  | succ M ih =>
+    rw [runsOf_succ]
+    split
+    · split
+      · rename_i st l hlast
+        obtain ⟨ys, hys⟩ := List.getLast?_eq_some_iff.mp hlast
+        have hok := runsOf_ok M good
+        rw [hys] at ih hok ⊢
+        have ih' := List.pairwise_append.mp ih
+        split
+        · rw [List.dropLast_concat, List.pairwise_append]
+          refine ⟨ih'.1, List.pairwise_singleton _ _, ?_⟩
+          intro a ha b hb
+          simp only [List.mem_singleton] at hb; subst hb
+          exact ih'.2.2 a ha (st, l) (by simp)
+        · rename_i hne
+          rw [List.pairwise_append]
+          refine ⟨ih, List.pairwise_singleton _ _, ?_⟩
+          intro a ha b hb
+          simp only [List.mem_singleton] at hb; subst hb
+          have hl := (hok (st, l) (by simp)).2.1
+          rcases List.mem_append.mp ha with h | h
+          · have := ih'.2.2 a h (st, l) (by simp)
+            unfold Sep at *; simp only at *; omega
+          · simp only [List.mem_singleton] at h; subst h
+            unfold Sep; simp only at *; omega
+      · simp
+    · exact ih
+
+/-- every run of consecutive good columns below `M` lies inside ONE run recorded by the scan -/
+theorem runsOf_cover (M : ℕ) (good : ℕ → Bool) (st l : ℕ) (hl : 1 ≤ l) (hM : st + l ≤ M)
+    (hg : ∀ j < l, good (st + j) = true) : ∃ r ∈ runsOf M good, r.1 ≤ st ∧ st + l ≤ r.1 + r.2 := by
+  induction M generalizing st l with
+  | zero => omega
+  | succ M ih =>
+    have hsep := runsOf_sep M good
+    have hok := runsOf_ok M good
+    rw [runsOf_succ]
+    by_cases hin : st + l ≤ M
+    · -- the run lies below M: the recorded run that contains it is kept or extended
+      obtain ⟨r, hr, h1, h2⟩ := ih st l hl hin hg
+      split
+      · split
+        · rename_i st' l' hlast
+          obtain ⟨ys, hys⟩ := List.getLast?_eq_some_iff.mp hlast
+          split
+          · rw [hys] at hr ⊢
+            rw [List.dropLast_concat]
+            rcases List.mem_append.mp hr with h | h
+            · exact ⟨r, List.mem_append_left _ h, h1, h2⟩
+            · simp only [List.mem_singleton] at h; subst h
+              exact ⟨(st', l' + 1), by simp, h1, by simp only at h2 ⊢; omega⟩
+          · exact ⟨r, List.mem_append_left _ hr, h1, h2⟩
+        · rename_i hnone
+          simp only [List.getLast?_eq_none_iff] at hnone
+          rw [hnone] at hr; simp at hr
+      · exact ⟨r, hr, h1, h2⟩
+    · -- the run ends at column M
+      have hend : st + l = M + 1 := by omega
+      have hgM : good M = true := by
+        have := hg (l - 1) (by omega)
+        have e : st + (l - 1) = M := by omega
+        rwa [e] at this
+      rw [if_pos hgM]
+      by_cases hl1 : l = 1
+      · subst hl1
+        have hst : st = M := by omega
+        subst hst
+        split
+        · rename_i st' l' hlast
+          obtain ⟨ys, hys⟩ := List.getLast?_eq_some_iff.mp hlast
+          split
+          · rename_i hM'
+            exact ⟨(st', l' + 1), by simp, by simp only; omega, by simp only; omega⟩
+          · exact ⟨(st, 1), by simp, le_refl _, le_refl _⟩
+        · exact ⟨(st, 1), by simp, le_refl _, le_refl _⟩
+      · obtain ⟨r, hr, h1, h2⟩ := ih st (l - 1) (by omega) (by omega) (fun j hj => hg j (by omega))
+        have hrok := hok r hr
+        have hrend : r.1 + r.2 = M := by have := hrok.2.1; omega
+        split
+        · rename_i st' l' hlast
+          obtain ⟨ys, hys⟩ := List.getLast?_eq_some_iff.mp hlast
+          have hlok := (hok (st', l') (by rw [hys]; simp)).2.1
+          have hrlast : r = (st', l') := by
+            rw [hys] at hr hsep
+            rcases List.mem_append.mp hr with h | h
+            · have := (List.pairwise_append.mp hsep).2.2 r h (st', l') (by simp)
+              unfold Sep at this; simp only at this hlok; omega
+            · simpa using h
+          subst hrlast
+          simp only at hrend h1 h2
+          rw [if_pos hrend.symm]
+          exact ⟨(st', l' + 1), by simp, h1, by simp only; omega⟩
+        · rename_i hnone
+          simp only [List.getLast?_eq_none_iff] at hnone
+          rw [hnone] at hr; simp at hr
+
+theorem foldl_pick_first (rs : List (ℕ × ℕ)) (r : ℕ × ℕ) (hp : (r :: rs).Pairwise (fun a b => a.1 < b.1)) :
+    ∀ y ∈ r :: rs, y.2 = (rs.foldl (fun best x => if best.2 < x.2 then x else best) r).2 →
+      (rs.foldl (fun best x => if best.2 < x.2 then x else best) r).1 ≤ y.1 := by
+  induction rs generalizing r with
+  | nil => intro y hy _; simp at hy; subst hy; exact le_refl _
+  | cons x xs ih =>
+    intro y hy hy2
+    simp only [List.foldl_cons] at hy2 ⊢
+    have hpx : (x :: xs).Pairwise (fun a b => a.1 < b.1) := (List.pairwise_cons.mp hp).2
+    have hpr : (r :: xs).Pairwise (fun a b => a.1 < b.1) := by
+      rw [List.pairwise_cons] at hp ⊢
+      exact ⟨fun a ha => hp.1 a (List.mem_cons_of_mem _ ha), (List.pairwise_cons.mp hp.2).2⟩
+    have hrx : r.1 < x.1 := (List.pairwise_cons.mp hp).1 x List.mem_cons_self
+    by_cases hlt : r.2 < x.2
+    · rw [if_pos hlt] at hy2 ⊢
+      have hmax := foldl_pick_max xs x x List.mem_cons_self
+      rcases List.mem_cons.mp hy with h | h
+      · subst h; omega
+      · exact ih x hpx y h hy2
+    · rw [if_neg hlt] at hy2 ⊢
+      have hmax := foldl_pick_max xs r r List.mem_cons_self
+      rcases List.mem_cons.mp hy with h | h
+      · subst h; exact ih y hpr y List.mem_cons_self hy2
+      · rcases List.mem_cons.mp h with h | h
+        · subst h
+          have := ih r hpr r List.mem_cons_self (by omega)
+          omega
+        · exact ih r hpr y (List.mem_cons_of_mem _ h) hy2
+
+/-- PROPERTY. `find_contiguous` returns A LONGEST run of consecutive good columns, and among the longest the FIRST one:
+the returned block `[c0, c0+len)` is non-empty, in range and all good; EVERY block `[st, st+l)` of good columns inside the
+range has `l ≤ len`; and a block of the same length `len` starts at `st ≥ c0` (`lengths.index(max(lengths))` = first maximum).
+By induction over the scan (`runsOf_cover`: every good block lies inside one recorded run; `runsOf_sep`: recorded runs are
+separated and in increasing order). -/
+theorem findContiguous_longest_first (M : ℕ) (good : ℕ → Bool) (c0 len : ℕ) (h : findContiguous M good = some (c0, len)) :
+    1 ≤ len ∧ c0 + len ≤ M ∧ (∀ j < len, good (c0 + j) = true) ∧
+    ∀ st l, st + l ≤ M → (∀ j < l, good (st + j) = true) → l ≤ len ∧ (l = len → c0 ≤ st) := by
+  have hb := findContiguous_block M good c0 len h
+  refine ⟨hb.1, hb.2.1, hb.2.2.1, ?_⟩
+  intro st l hM hg
+  by_cases hl : l = 0
+  · subst hl; exact ⟨Nat.zero_le _, fun h0 => by omega⟩
+  obtain ⟨r, hr, h1, h2⟩ := runsOf_cover M good st l (by omega) hM hg
+  have hrl := hb.2.2.2 r hr
+  refine ⟨by omega, fun hll => ?_⟩
+  have hr1 : r.1 = st := by omega
+  have hr2 : r.2 = len := by omega
+  unfold findContiguous at h
+  split at h
+  · exact absurd h (by simp)
+  · rename_i r0 rs hruns
+    simp only [Option.some.injEq] at h
+    have hsort : (r0 :: rs).Pairwise (fun a b => a.1 < b.1) := by
+      rw [← hruns]
+      exact (runsOf_sep M good).imp (fun {a b} hab => by unfold Sep at hab; omega)
+    have := foldl_pick_first rs r0 hsort r (by rw [← hruns]; exact hr) (by rw [h]; exact hr2)
+    rw [h] at this
+    simp only at this
+    omega
+
+/-- `find_contiguous` raises (no block) exactly when no column is good -/
+theorem findContiguous_none_iff (M : ℕ) (good : ℕ → Bool) :
+    findContiguous M good = none ↔ ∀ j < M, good j = false := by
+  constructor
+  · intro h j hj
+    by_contra hgj
+    have hgj' : good j = true := by simpa using hgj
+    obtain ⟨r, hr, _, _⟩ := runsOf_cover M good j 1 (le_refl _) (by omega) (fun i hi => by
+      have : i = 0 := by omega
+      subst this; exact hgj')
+    unfold findContiguous at h
+    split at h
+    · rename_i hnil; rw [hnil] at hr; simp at hr
+    · simp at h
+  · intro h
+    unfold findContiguous
+    split
+    · rfl
+    · rename_i r rs hruns
+      have hok := runsOf_ok M good r (by rw [hruns]; simp)
+      have := hok.2.2 0 (by have := hok.1; omega)
+      have h2 := h (r.1 + 0) (by have := hok.1; have := hok.2.1; omega)
+      rw [h2] at this; simp at this
+
 
 /-- PROPERTY. `HMF.iterate` with zero-column removal: when it returns, the block of columns it worked on is non-empty,
 lies inside the input range and contains no zero column (no column whose spectra / invvar / spectra·invvar sum is
@@ -1401,6 +2241,88 @@ theorem iterateCols_block {α : Type} [Scalar α] (sqrt : α → α) (solve : Ma
     refine ⟨hb.1, hb.2.1, fun j hj => ?_, rfl⟩
     have := hb.2.2.1 j hj
     simpa using this
+
+
+/-- PROPERTY. `HMF.iterate` with zero-column removal keeps the FIRST LONGEST block of columns that are not zero columns:
+every block `[st, st+l)` of non-zero columns inside the range has `l ≤ ncol`, and one of the same length starts at or
+after `col0`; and it raises (ValueError) exactly when every column is a zero column. -/
+theorem iterateCols_block_longest {α : Type} [Scalar α] (sqrt : α → α) (solve : Mat α → Vec α → Vec α) (eigh : Mat α → Eig α)
+    (N M Kc nIter nnPre : ℕ) (s0 w g0 : ℕ → ℕ → α) (nonneg : Bool) (eps : Option α) :
+    (∀ r, iterateCols sqrt solve eigh N M Kc nIter nnPre s0 w g0 nonneg eps = .ok r →
+      ∀ st l, st + l ≤ M →
+        (∀ j < l, zeroCol N (fun i j => if nonneg then (if s0 i j < 0 then 0 else s0 i j) else s0 i j) w (st + j) = false) →
+        l ≤ r.ncol ∧ (l = r.ncol → r.col0 ≤ st)) ∧
+    ((∃ e, iterateCols sqrt solve eigh N M Kc nIter nnPre s0 w g0 nonneg eps = .error e) ↔
+      ∀ j < M, zeroCol N (fun i j => if nonneg then (if s0 i j < 0 then 0 else s0 i j) else s0 i j) w j = true) := by
+  constructor
+  · intro r h st l hM hz
+    unfold iterateCols at h
+    dsimp only at h
+    split at h
+    · exact absurd h (by simp)
+    · rename_i c0 M' hfc
+      simp only [Except.ok.injEq] at h
+      subst h
+      exact (findContiguous_longest_first M _ c0 M' hfc).2.2.2 st l hM (fun j hj => by simp [hz j hj])
+  · have hn := findContiguous_none_iff M
+      (fun j => !(zeroCol N (fun i j => if nonneg then (if s0 i j < 0 then 0 else s0 i j) else s0 i j) w j))
+    constructor
+    · rintro ⟨e, h⟩
+      unfold iterateCols at h
+      dsimp only at h
+      split at h
+      · rename_i hfc
+        intro j hj
+        have := hn.mp hfc j hj
+        simpa using this
+      · exact absurd h (by simp)
+    · intro hall
+      have hfc := hn.mpr (fun j hj => by simp [hall j hj])
+      refine ⟨"ValueError", ?_⟩
+      unfold iterateCols
+      dsimp only
+      rw [hfc]
+
+/-! ### extension 2: single spectrum as a vector; fewer k-means centroids than K -/
+
+/-- PROPERTY. pca_solve with a one-dimensional `newflux` (single spectrum): it returns exactly when `newivar` is
+two-dimensional and its row 0 has a non-zero entry, and then the result is the flux itself, pixel by pixel; a
+one-dimensional `newivar` is refused with IndexError, a row 0 without good pixel with ValueError. -/
+theorem pcaSolveVec_spec {α : Type} [Scalar α] (npix ivarDim : ℕ) (flux : ℕ → α) (ivar : ℕ → ℕ → α) :
+    (ivarDim = 1 → pcaSolveVec npix ivarDim flux ivar = .error "IndexError") ∧
+    (ivarDim ≠ 1 → firstNonzero npix (ivar 0) = npix → pcaSolveVec npix ivarDim flux ivar = .error "ValueError") ∧
+    (ivarDim ≠ 1 → firstNonzero npix (ivar 0) ≠ npix →
+      ∃ f, pcaSolveVec npix ivarDim flux ivar = .ok (.single f) ∧ ∀ p < npix, vget f p = flux p) := by
+  refine ⟨fun h => by simp [pcaSolveVec, h], fun h h2 => by simp [pcaSolveVec, h, h2], fun h h2 => ?_⟩
+  exact ⟨vtab npix flux, by simp [pcaSolveVec, h, h2], fun p hp => Solvers.vget_vtab npix flux p hp⟩
+
+/-- PROPERTY. HMF.iterate when k-means returned `Kg` centroids: with `Kg = K` it is `iterate` (all theorems about
+`iterate` apply); with `Kg ≠ K` it returns ONLY when no update is ever run (`n_iter = 0` and no non-negative
+pre-iteration), and then `a` is the flat `N × K` start and `g` the `Kg` normalised centroids; otherwise ValueError. -/
+theorem iterateKg_spec {α : Type} [Scalar α] (sqrt : α → α) (solve : Mat α → Vec α → Vec α) (eigh : Mat α → Eig α)
+    (N M Kc Kg nIter nnPre : ℕ) (s0 w g0 : ℕ → ℕ → α) (nonneg : Bool) (eps : Option α) :
+    (Kg = Kc → iterateKg sqrt solve eigh N M Kc Kg nIter nnPre s0 w g0 nonneg eps
+      = .ok (iterate sqrt solve eigh N M Kc nIter nnPre s0 w g0 nonneg eps)) ∧
+    (Kg ≠ Kc → ((nonneg = true ∧ 0 < nnPre) ∨ 0 < nIter) →
+      iterateKg sqrt solve eigh N M Kc Kg nIter nnPre s0 w g0 nonneg eps = .error "ValueError") ∧
+    (Kg ≠ Kc → ¬ (nonneg = true ∧ 0 < nnPre) → nIter = 0 →
+      ∃ r, iterateKg sqrt solve eigh N M Kc Kg nIter nnPre s0 w g0 nonneg eps = .ok r ∧
+        r.1.size = N ∧ r.2.size = Kg ∧
+        (∀ k < Kg, ∀ j < M, mget r.2 k j = g0 k j / vget (normbase sqrt Kg M g0) k)) := by
+  refine ⟨fun h => by simp [iterateKg, h], fun h h2 => ?_, fun h h2 h3 => ?_⟩
+  · unfold iterateKg
+    rw [if_neg h]
+    rcases h2 with h2 | h2
+    · simp [h2.1, h2.2]
+    · by_cases h4 : (nonneg && decide (0 < nnPre)) = true
+      · rw [if_pos h4]
+      · rw [if_neg h4, if_pos h2]
+  · have h4 : ¬ ((nonneg && decide (0 < nnPre)) = true) := by
+      simpa using h2
+    unfold iterateKg
+    rw [if_neg h, if_neg h4, if_neg (by omega)]
+    refine ⟨_, rfl, by simp [mtab], by simp [mtab], fun k hk j hj => ?_⟩
+    exact Solvers.mget_mtab Kg M _ k j hk hj
 
 /-! ## non-vacuity: the contracts are satisfiable on concrete inputs (over ℚ) -/
 section Examples
@@ -1461,6 +2383,18 @@ example : ∀ j : Fin 2, Solves 1 (gstepMat 1 2 1 (fun _ _ => (1 : ℚ)) (fun _ 
   subst hk
   simp [-scalar_lit, exSolve, gstepMat, gstepRhs, epsDiag, epsRhs, epsOn, exB, sumN_fin, mget, vget, mtab, vtab]
 
+/-- the solve contract of the g-step WITH smoothing (epsilon = 1) is satisfiable: hypotheses of `gstep_eps_badness_le` -/
+example : ∀ j : Fin 2, Solves 1 (gstepMat 1 2 1 (fun _ _ => (1 : ℚ)) (fun _ _ => 1) (some 1) j)
+    (gstepRhs 1 2 1 (fun _ j => exB j) (fun _ _ => 1) (fun _ _ => 1) (fun _ _ => 1) (some 1) j)
+    (exSolve (gstepMat 1 2 1 (fun _ _ => (1 : ℚ)) (fun _ _ => 1) (some 1) j)
+      (gstepRhs 1 2 1 (fun _ j => exB j) (fun _ _ => 1) (fun _ _ => 1) (fun _ _ => 1) (some 1) j)) := by
+  intro j k
+  have hk : k = 0 := Subsingleton.elim _ _
+  subst hk
+  fin_cases j <;>
+    simp [-scalar_lit, exSolve, gstepMat, gstepRhs, epsDiag, epsRhs, epsOn, epsVal, exB, sumN_fin, mget, vget, mtab, vtab] <;>
+    norm_num
+
 /-- the `eigh` contract holds for the 2×2 matrix diag(3, 1) with the identity as eigenvectors -/
 example : EighOK 2 (#[#[3, 0], #[0, 1]] : Mat ℚ) ⟨#[3, 1], #[#[1, 0], #[0, 1]]⟩ := by
   constructor <;> intro i j <;> fin_cases i <;> fin_cases j <;>
@@ -1472,6 +2406,11 @@ example : findContiguous 9 (fun k => #[false, true, true, true, false, true, tru
   decide
 example : findContiguous 5 (fun k => #[true, true, false, true, true][k]!) = some (0, 2) := by decide
 example : findContiguous 3 (fun _ => false) = none := by decide
+/-- the hypotheses of `astepnn_badness_le` / `gstepnn_badness_le` hold on a concrete state (all entries 1, N = 1, M = 2, K = 1):
+the denominators are 2 resp. 1 -/
+example : ∀ (i : Fin 1) (k : Fin 1), (∑ j : Fin 2, (∑ l : Fin 1, ((fun _ _ => (1 : ℚ)) : ℕ → ℕ → ℚ) i l * ((fun _ _ => (1 : ℚ)) : ℕ → ℕ → ℚ) l j)
+    * ((fun _ _ => (1 : ℚ)) : ℕ → ℕ → ℚ) i j * ((fun _ _ => (1 : ℚ)) : ℕ → ℕ → ℚ) k j) ≠ 0 := by
+  intro i k; norm_num
 
 end Examples
 
